@@ -34,9 +34,46 @@ TRUSTED_BASE = [
 ]
 
 
+_CHILDREN = set()
+
+
 def sh(cmd, timeout=None, cwd=None, env=None):
-    p = subprocess.run(cmd, stdout=subprocess.PIPE, stderr=subprocess.STDOUT, text=True, timeout=timeout, cwd=cwd, env=env)
-    return p.returncode, p.stdout
+    if _ABORT[0]:
+        return 1, 'aborted: deadline reached'
+    p = subprocess.Popen(cmd, stdout=subprocess.PIPE, stderr=subprocess.STDOUT, text=True, cwd=cwd, env=env, start_new_session=True)
+    _CHILDREN.add(p)
+    try:
+        out, _ = p.communicate(timeout=timeout)
+    except subprocess.TimeoutExpired:
+        _kill(p)
+        out, _ = p.communicate()
+    finally:
+        _CHILDREN.discard(p)
+    return p.returncode, out
+
+
+def _kill(p):
+    try:
+        os.killpg(p.pid, 9)          # the child leads its own session: its descendants (timeout -> coqc) go with it
+    except Exception:
+        try:
+            p.kill()
+        except Exception:
+            pass
+
+
+class Deadline(Exception):
+    pass
+
+
+_ABORT = [False]
+
+
+def _on_deadline(signum, frame):
+    _ABORT[0] = True
+    for ch in list(_CHILDREN):
+        _kill(ch)
+    raise Deadline('the check did not finish within %s s (on the pinned tree it takes a fraction of that)' % os.environ.get('VERIF_DEADLINE_USED', '?'))
 
 
 # ----------------------------------------------------------------------------------------- build
@@ -244,6 +281,13 @@ def main():
         tier = 'quick'
     seed0 = int(os.environ.get('VERIF_SEED', '0') or 0)
     t0 = time.time()
+    # overall budget: a change that makes the implementation (or the judge on its output) many times slower must end in a verdict, not in
+    # an external time-out.  quick: 780 s (the slowest quick check takes under 300 s on the pinned tree), thorough: 4 h.
+    import signal
+    deadline = int(os.environ.get('VERIF_DEADLINE') or ('780' if tier == 'quick' else '14400'))
+    os.environ['VERIF_DEADLINE_USED'] = str(deadline)
+    signal.signal(signal.SIGALRM, _on_deadline)
+    signal.alarm(deadline)
     mod = importlib.import_module('props.' + prop)
     work = os.path.join(VERIF, '.work', '%s-%d' % (prop, os.getpid()))
     os.makedirs(work, exist_ok=True)
@@ -497,6 +541,8 @@ if __name__ == '__main__':
         # input, naming what broke (never silently, never as a bare non-zero exit).
         import traceback
         tb = traceback.format_exc()
+        for ch in list(_CHILDREN):
+            _kill(ch)
         print(tb)
         prop = next((a for a in sys.argv[1:] if re.fullmatch(r'C\d\d', a)), 'unknown')
         rp = os.path.join(VERIF, 'replays', '%s-correspondence.json' % prop)
